@@ -332,20 +332,28 @@ def rule_r3(repo):
     rr = RuleResult('C11.R3', 'command_split writes the yielded bytes unmodified; counting counts yields')
     fi = repo.func('commands', 'command_split')
 
+    from sa.patheval import Stub
+
     class I(Interp):
+        # files are scripted objects that remember their name: which variables hold them, or whether reading / writing was moved into
+        # helpers, does not matter
         def on_call(self, text, callee, args, kwargs, node, frame):
+            it = self
             if text == 'Decoder':
-                return Obj('DecoderStub', {})
+                return Stub('decoder')
             if text == 'open':
-                return Obj('File', {'name': args[0] if args else None, 'mode': args[1] if len(args) > 1 else 'r'})
-            if text == 'ins.read':
-                return Sym('STREAM')
+                name = args[0] if args else kwargs.get('file')
+
+                def read(interp, a, kw, node, frame):
+                    return Sym('STREAM')
+
+                def write(interp, a, kw, node, frame):
+                    it.event('write', repr(a[0]) if a else None, name)
+                    return None
+                return Stub('file', {'read': read, 'write': write}, attrs={'name': name})
             if text == 'generate_bufr_message':
                 self.event('scan', [repr(a) for a in args], dict((k, repr(v)) for k, v in kwargs.items()))
-                return [Obj('M', {'serialized_bytes': Sym('BYTES0')}), Obj('M', {'serialized_bytes': Sym('BYTES1')})]
-            if text == 'outs.write':
-                self.event('write', repr(args[0]), frame.locals.get('new_filename'))
-                return None
+                return [Stub('message 0', attrs={'serialized_bytes': Sym('BYTES0')}), Stub('message 1', attrs={'serialized_bytes': Sym('BYTES1')})]
             if text == 'print':
                 return None
             return self.NOT_HANDLED
